@@ -39,3 +39,16 @@ func init() {
 			New: "\t\tfor _, space := range srcMap[bl] {\n\t\t\tnext := currentSize + int(poc.ProofTypeDefault.PlotSize(bl))\n\t\t\tif next > targetSize {\n\t\t\t\tcontinue\n\t\t\t}\n\t\t\tcurrentSize = next\n\t\t\tdstList = append(dstList, space)"},
 	}
 }
+
+func init() {
+	variants["C15"] = append(variants["C15"],
+		variant{Name: "count-based finished flag reflects only the last bit length", Kill: true, Rule: "C15-REUSE", File: fCapacity,
+			Old: "\t\tblFinished = currentCount[bl] == count\n\t\tfinished = finished && blFinished\n", New: "\t\tblFinished = currentCount[bl] == count\n\t\tfinished = blFinished\n"},
+		variant{Name: "index deletions moved into the helper shared with RemoveWS", Kill: true, Rule: "C15-REUSE", File: fCapacity,
+			Old:   "\tsk.workSpaceIndex[ws.state].Delete(sid)\n\tsk.workSpaceIndex[allState].Delete(sid)\n\tsk.disuseWorkSpace(ws)\n",
+			New:   "\tsk.disuseWorkSpace(ws)\n",
+			File2: fCapacity, Old2: "\tws.using = false\n\tsk.workSpaceList = deleteFromSlice(", New2: "\tws.using = false\n\tsk.workSpaceIndex[ws.state].Delete(ws.id.String())\n\tsk.workSpaceIndex[allState].Delete(ws.id.String())\n\tsk.workSpaceList = deleteFromSlice("},
+		variant{Name: "finished accumulated with an if instead of &&", Kill: false, File: fCapacity,
+			Old: "\t\tblFinished = currentCount[bl] == count\n\t\tfinished = finished && blFinished\n", New: "\t\tblFinished = currentCount[bl] == count\n\t\tif !blFinished {\n\t\t\tfinished = false\n\t\t}\n"},
+	)
+}
